@@ -114,8 +114,17 @@ func (i *interpreter) checkGlobalRead(g *ssa.Global) {
 	if g.Pkg != nil && i.shared.initPkgs[g.Pkg] {
 		return
 	}
+	if zeroIsTheModel[g.String()] {
+		return
+	}
 	panic(engineError{fmt.Sprintf("read of package-level variable %s whose initialiser was not run (at %s)", g.String(), i.where())})
 }
+
+// zeroIsTheModel lists initialised package-level variables whose zero value is the stated model of the
+// environment (their initialisers use reflection or the process environment):
+//   - internal/buildcfg.Experiment: no GOEXPERIMENT is in force, every experiment flag is off. go/types reads
+//     only .RangeFunc, and with it off range-over-func is still allowed for unversioned packages (go1.23+).
+var zeroIsTheModel = map[string]bool{"internal/buildcfg.Experiment": true}
 
 // runInits executes the package initialisers the harness asked for (own
 // statements only; calls to other packages' init are skipped).
